@@ -251,6 +251,11 @@ def g3_wrapped(F, R):
                     'so the assembled value can be torn by a configuration change between the reads' % (fmt(bad)[:120] if bad else ''))
     # the five named values
     for adt, what in WRAPPED.items():
+        mod = adt.rsplit('::', 1)[0]
+        if not any(k.startswith(mod + '::') for k in F.bodies):
+            R.note('G3: %s is not part of this configuration (%s)' % (adt, F.cfg))
+            R.count('wrapped_values', 1)
+            continue
         hits = [v for k, v in found.items() if k == adt or (isinstance(k, str) and k.startswith(adt.rsplit('::', 1)[0] + '::') and adt not in F.adts)]
         if adt not in F.adts:
             # free function (9P mount tag reader) lives in the driver's module
